@@ -1,0 +1,198 @@
+//! The synchronization primitives used by the crate.
+//!
+//! Normally this is a plain re-export of `std::sync`.  When the crate is
+//! compiled with `--cfg cfb_verif`, `RwLock` is instead a thin wrapper around
+//! `std::sync::RwLock` that can record, for every acquisition and release,
+//! the acting thread, how many guards of that lock family the thread already
+//! holds, and the call site.  The wrapper does not change locking behaviour.
+
+#[cfg(not(cfb_verif))]
+#[allow(unused_imports)]
+pub use std::sync::{Arc, RwLock, RwLockReadGuard, RwLockWriteGuard, Weak};
+
+#[cfg(cfb_verif)]
+pub use self::traced::{
+    current_thread_id, set_lock_tracing, take_lock_events, LockEvent, RwLock,
+    RwLockReadGuard, RwLockWriteGuard,
+};
+#[cfg(cfb_verif)]
+pub use std::sync::{Arc, Weak};
+
+#[cfg(cfb_verif)]
+mod traced {
+    use std::cell::Cell;
+    use std::ops::{Deref, DerefMut};
+    use std::panic::Location;
+    use std::sync::atomic::{AtomicBool, AtomicU64, Ordering};
+    use std::sync::{self, LockResult, Mutex, PoisonError};
+
+    /// One recorded step of the lock protocol.
+    #[derive(Clone, Debug)]
+    pub struct LockEvent {
+        /// Global sequence number (assigned under the event log's mutex).
+        pub seq: u64,
+        /// Small integer identifying the acting thread.
+        pub thread: u64,
+        /// One of `req_r`, `acq_r`, `rel_r`, `req_w`, `acq_w`, `rel_w`.
+        pub kind: &'static str,
+        /// Number of guards the thread held just before this step.
+        pub depth: u32,
+        /// Source file of the acquisition site.
+        pub file: &'static str,
+        /// Source line of the acquisition site.
+        pub line: u32,
+    }
+
+    static TRACING: AtomicBool = AtomicBool::new(false);
+    static NEXT_THREAD: AtomicU64 = AtomicU64::new(1);
+    static LOG: Mutex<(u64, Vec<LockEvent>)> = Mutex::new((0, Vec::new()));
+
+    thread_local! {
+        static THREAD_ID: Cell<u64> = const { Cell::new(0) };
+        static DEPTH: Cell<u32> = const { Cell::new(0) };
+    }
+
+    /// Returns the identifier used for the calling thread in lock events.
+    pub fn current_thread_id() -> u64 {
+        THREAD_ID.with(|id| {
+            if id.get() == 0 {
+                id.set(NEXT_THREAD.fetch_add(1, Ordering::Relaxed));
+            }
+            id.get()
+        })
+    }
+
+    /// Turns recording of lock events on or off (off by default).
+    pub fn set_lock_tracing(on: bool) {
+        TRACING.store(on, Ordering::SeqCst);
+    }
+
+    /// Removes and returns all lock events recorded so far.
+    pub fn take_lock_events() -> Vec<LockEvent> {
+        let mut log = LOG.lock().unwrap_or_else(PoisonError::into_inner);
+        std::mem::take(&mut log.1)
+    }
+
+    fn record(kind: &'static str, depth: u32, site: &'static Location) {
+        if !TRACING.load(Ordering::SeqCst) {
+            return;
+        }
+        let thread = current_thread_id();
+        let mut log = LOG.lock().unwrap_or_else(PoisonError::into_inner);
+        log.0 += 1;
+        let seq = log.0;
+        log.1.push(LockEvent {
+            seq,
+            thread,
+            kind,
+            depth,
+            file: site.file(),
+            line: site.line(),
+        });
+    }
+
+    fn depth() -> u32 {
+        DEPTH.with(|d| d.get())
+    }
+
+    fn depth_add(delta: i32) {
+        DEPTH.with(|d| d.set((d.get() as i32 + delta).max(0) as u32));
+    }
+
+    /// Instrumented reader-writer lock.
+    pub struct RwLock<T> {
+        inner: sync::RwLock<T>,
+    }
+
+    impl<T> RwLock<T> {
+        /// Creates a new lock.
+        pub fn new(value: T) -> RwLock<T> {
+            RwLock { inner: sync::RwLock::new(value) }
+        }
+
+        /// Acquires shared access.
+        #[track_caller]
+        pub fn read(&self) -> LockResult<RwLockReadGuard<'_, T>> {
+            let site = Location::caller();
+            record("req_r", depth(), site);
+            let result = self.inner.read();
+            record("acq_r", depth(), site);
+            depth_add(1);
+            match result {
+                Ok(inner) => Ok(RwLockReadGuard { inner, site }),
+                Err(err) => Err(PoisonError::new(RwLockReadGuard {
+                    inner: err.into_inner(),
+                    site,
+                })),
+            }
+        }
+
+        /// Acquires exclusive access.
+        #[track_caller]
+        pub fn write(&self) -> LockResult<RwLockWriteGuard<'_, T>> {
+            let site = Location::caller();
+            record("req_w", depth(), site);
+            let result = self.inner.write();
+            record("acq_w", depth(), site);
+            depth_add(1);
+            match result {
+                Ok(inner) => Ok(RwLockWriteGuard { inner, site }),
+                Err(err) => Err(PoisonError::new(RwLockWriteGuard {
+                    inner: err.into_inner(),
+                    site,
+                })),
+            }
+        }
+
+        /// Consumes the lock, returning the protected value.
+        pub fn into_inner(self) -> LockResult<T> {
+            self.inner.into_inner()
+        }
+    }
+
+    /// Shared guard; records its release while the lock is still held.
+    pub struct RwLockReadGuard<'a, T> {
+        inner: sync::RwLockReadGuard<'a, T>,
+        site: &'static Location<'static>,
+    }
+
+    impl<T> Deref for RwLockReadGuard<'_, T> {
+        type Target = T;
+        fn deref(&self) -> &T {
+            &self.inner
+        }
+    }
+
+    impl<T> Drop for RwLockReadGuard<'_, T> {
+        fn drop(&mut self) {
+            record("rel_r", depth(), self.site);
+            depth_add(-1);
+        }
+    }
+
+    /// Exclusive guard; records its release while the lock is still held.
+    pub struct RwLockWriteGuard<'a, T> {
+        inner: sync::RwLockWriteGuard<'a, T>,
+        site: &'static Location<'static>,
+    }
+
+    impl<T> Deref for RwLockWriteGuard<'_, T> {
+        type Target = T;
+        fn deref(&self) -> &T {
+            &self.inner
+        }
+    }
+
+    impl<T> DerefMut for RwLockWriteGuard<'_, T> {
+        fn deref_mut(&mut self) -> &mut T {
+            &mut self.inner
+        }
+    }
+
+    impl<T> Drop for RwLockWriteGuard<'_, T> {
+        fn drop(&mut self) {
+            record("rel_w", depth(), self.site);
+            depth_add(-1);
+        }
+    }
+}
